@@ -39,6 +39,8 @@ func runC34(p *Prog, r *Report) {
 	pooledHelperRule(p, r, "requestStream")
 	// the bytes of a fixed-length stream that reach the wire are bounded by the declared size (shared with C03.R1)
 	runC03Bounded(p, r)
+	// the chunked writer frames every byte a Read returned, also the ones that come together with an error (shared with C03.R7)
+	runC03ReadData(p, r)
 	// E8: the once-guard of the compressed stream wrapper. The flag that says "the original stream was closed"
 	// is tested and set by two goroutines (the compressing one and whoever discards the wrapper); the test, the
 	// store and the Close call form one critical section, so every access to the flag holds the wrapper's lock.
